@@ -92,7 +92,7 @@ class TierHistory:
         if self.hostile and not self.grid and r.random() < BIG_RATE:
             # a tier of realistic size: a phone tier of a long recording has a thousand entries and more (and sizes just above 64 and
             # 1024 are where a fast path for "large" inputs would begin)
-            n = r.choice([r.randrange(64, 90)] * 5 + [r.randrange(1024, 1100)])
+            n = r.choice([r.randrange(64, 90)] * 7 + [r.randrange(1024, 1100)])
             w = self.hi / (2.2 * n)
             pos, ents = 0.0, []
             for _k in range(n):
@@ -180,6 +180,8 @@ class TierHistory:
             # tiers stay small as a rule (the models are exact, not fast); at most two tiers of realistic size live in a pool
             if len(t._entries) < 64 or sum(1 for x in self.pool if len(x._entries) >= 64) >= 2:
                 return
+            if len(t._entries) >= 1000 and any(len(x._entries) >= 1000 for x in self.pool):
+                return  # (one tier of a thousand entries at a time: operations between two of them cost seconds)
         self.pool.append(t)
         if len(self.pool) > self.pool_max:
             self.pool.pop(self.rng.randrange(len(self.pool)))
